@@ -704,10 +704,11 @@ mod serde {
             };
 
             while let Some((item, priority)) = seq.next_element()? {
-                store.map.insert(item, priority);
-                store.qp.push(Position(store.size));
-                store.heap.push(Index(store.size));
-                store.size += 1;
+                if store.map.insert(item, priority).is_none() {
+                    store.qp.push(Position(store.size));
+                    store.heap.push(Index(store.size));
+                    store.size += 1;
+                }
             }
             Ok(store)
         }
